@@ -71,7 +71,7 @@ func cmdRun(args []string) {
 		os.Exit(3)
 	}
 	fmt.Fprintf(os.Stderr, "loaded in %.1fs\n", time.Since(t0).Seconds())
-	cfg := &gosym.Config{Workers: *workers, MaxSteps: *maxSteps, MaxPaths: *maxPaths, Budget: *budget, SolverMs: *solverMs, Samples: 3, Verbose: *verbose}
+	cfg := &gosym.Config{Workers: *workers, MaxSteps: *maxSteps, MaxPaths: *maxPaths, Budget: *budget, SolverMs: *solverMs, Samples: 3, Verbose: *verbose, RecursiveRLock: os.Getenv("GOSYM_RRLOCK") != ""}
 	if *order != "" {
 		cfg.OrderSites = strings.Split(*order, ",")
 	}
